@@ -313,6 +313,7 @@ inductive PRdata where
   | chA (n : PName) (addr : Nat)                               -- CH A: network name and octal address
   | aaaaC (hd tl : List Nat)                                   -- IN AAAA with `::` for the zero groups between `hd` and `tl`
   | aaaaV4 (hd : List Nat) (tl : Option (List Nat)) (a b c d : Nat)  -- IN AAAA ending in a dotted quad; `tl = some _`: with `::`
+  | wks (a b c d : Nat) (proto : PCode) (ports : List Nat)     -- IN WKS: address, protocol (`TCP`/`UDP` in any case, or a number), ports
   deriving Repr, Inhabited
 
 def u16Wire (n : Nat) : List UInt8 := [UInt8.ofNat (n / 256 % 256), UInt8.ofNat (n % 256)]
@@ -320,6 +321,23 @@ def u32Wire (n : Nat) : List UInt8 :=
   [UInt8.ofNat (n / 16777216 % 256), UInt8.ofNat (n / 65536 % 256), UInt8.ofNat (n / 256 % 256), UInt8.ofNat (n % 256)]
 
 def stringWire (s : PString) : List UInt8 := UInt8.ofNat s.octets.length :: stringOctets s
+
+/-- protocol mnemonics of WKS (RFC 1035 §3.4.2; the numbers are the IP protocol numbers) -/
+def protoMnemonics : List (String × Nat) := [("TCP", 6), ("UDP", 17)]
+
+/-- the protocol field of WKS: a mnemonic as written, or the decimal number -/
+def protoText : PCode → List UInt8
+  | .generic n => decimal n
+  | .mnemonic t _ => t
+
+/-- the ports of WKS, each after its gap -/
+def portsText (G : Nat → PGap) : Nat → List Nat → List UInt8
+  | _, [] => []
+  | i, p :: ps => gapText (G i) ++ (decimal p ++ portsText G (i + 1) ps)
+
+def portsLines (G : Nat → PGap) : Nat → List Nat → Nat
+  | _, [] => 0
+  | i, _ :: ps => gapLines (G i) + portsLines G (i + 1) ps
 
 /-- which typed syntax belongs to which class and type -/
 def kindOK (cls ty : Nat) : PRdata → Bool
@@ -336,6 +354,7 @@ def kindOK (cls ty : Nat) : PRdata → Bool
   | .chA .. => cls == 3 && ty == 1
   | .aaaaC .. => cls == 1 && ty == 28
   | .aaaaV4 .. => cls == 1 && ty == 28
+  | .wks .. => cls == 1 && ty == 11
 
 /-- the second and later strings of TXT, each after its gap -/
 def txtRest (G : Nat → PGap) : Nat → List PString → List UInt8
@@ -363,6 +382,7 @@ def rdataText (G : Nat → PGap) : PRdata → List UInt8
   | .aaaaC hd tl => groupsText hd ++ (58 :: 58 :: groupsText tl)
   | .aaaaV4 hd none a b c d => groupsThenQuad hd (quadText a b c d)
   | .aaaaV4 hd (some tl) a b c d => groupsText hd ++ (58 :: 58 :: groupsThenQuad tl (quadText a b c d))
+  | .wks a b c d pr ports => quadText a b c d ++ (gapText (G 0) ++ (protoText pr ++ portsText G 1 ports))
 
 /-- number of gaps inside the RDATA -/
 def rdataGaps : PRdata → Nat
@@ -379,6 +399,7 @@ def rdataGaps : PRdata → Nat
   | .chA .. => 1
   | .aaaaC .. => 0
   | .aaaaV4 .. => 0
+  | .wks _ _ _ _ _ ports => 1 + ports.length
 
 def txtLines (G : Nat → PGap) : Nat → List PString → Nat
   | _, [] => 0
@@ -401,6 +422,7 @@ def rdataLines (G : Nat → PGap) : PRdata → Nat
   | .chA n _ => nameLines n + gapLines (G 0)
   | .aaaaC .. => 0
   | .aaaaV4 .. => 0
+  | .wks _ _ _ _ _ ports => gapLines (G 0) + portsLines G 1 ports
 
 /-- the RDATA denoted (RFC 1035 §3.3, RFC 2782 wire formats); `none` if a name cannot be completed -/
 def rdataWire (origin : Option (List UInt8)) : PRdata → Option (List UInt8)
@@ -427,6 +449,8 @@ def rdataWire (origin : Option (List UInt8)) : PRdata → Option (List UInt8)
   | .aaaaV4 hd (some tl) a b c d =>
     some ((hd ++ List.replicate (8 - hd.length - (tl.length + 2)) 0 ++ tl).flatMap u16Wire ++
       [UInt8.ofNat a, UInt8.ofNat b, UInt8.ofNat c, UInt8.ofNat d])
+  | .wks a b c d pr ports =>
+    some (wksWire [UInt8.ofNat a, UInt8.ofNat b, UInt8.ofNat c, UInt8.ofNat d] pr.value ports)
 
 /-! ### records and files — the presentation subset of `C23_records_partial`
 
